@@ -117,6 +117,15 @@ def decode_weight(w, nmax):
     return None
 
 
+def as_int(v):
+    """integer value of a data cell, None when it is not a finite integer"""
+    if isinstance(v, bool) or not isinstance(v, (int, float)):
+        return None
+    if isinstance(v, float) and (math.isnan(v) or math.isinf(v) or v != int(v)):
+        return None
+    return int(v)
+
+
 # =============================================================== formulas
 def feval(t, env):
     op = t[0]
@@ -426,7 +435,7 @@ def flat_view(case, row, pre, J, special):
     ids, sp, attrs = [], [], []
     for j in range(J):
         v = row.get(f'{pre}{idc}_{j}')
-        ids.append(int(v) if isinstance(v, float) and v == int(v) else None)
+        ids.append(as_int(v))
         sp.append(row.get(f'{pre}{special}_{j}'))
         attrs.append({c: row.get(f'{pre}{c}_{j}') for c in case['alt_cols']})
     return ids, sp, attrs
@@ -455,7 +464,7 @@ def oracle_sample_case(case, res):
                 out.append(('columns-missing', {'individual': n, 'sample': which, 'missing': miss}))
                 continue
             rows = [dict(zip(cols, r)) for r in fr['rows']]
-            ids = [int(r[case['id_col']]) if r[case['id_col']] is not None else None for r in rows]
+            ids = [as_int(r[case['id_col']]) for r in rows]
             for k, det in check_rows_py(case, which, ids, [r[special] for r in rows], rows, int(ind[0])):
                 out.append((k, {'individual': n, 'function': 'sample_alternatives' if which == 'first'
                                 else 'sample_mev_alternatives', **({'detail': det})}))
@@ -629,7 +638,7 @@ def stream_sample(ctx):
                     'non-trivial = some stratum with 1 < k < n or a MEV sample or a combined variable; distinct by full case')
     rng = ctx.sub_rng('sample')
     cases = load_corpus('sample')
-    n = ctx.n(48, 600)
+    n = ctx.n(40, 400)
     forced = [{'mode': 'full'}, {'mode': 'ones'}, {'mode': 'full', 'mev': True}, {'mode': 'ones', 'mev': True},
               {'n_alt': 5}, {'n_alt': 30, 'mev': True}]
     for i in range(n):
@@ -717,7 +726,8 @@ def closed_form_sample_loglik(case, sample_ids):
         env_i = dict(zip(case['ind_cols'], r))
         ws = []
         for a in sid:
-            if a is None or int(a) not in table:
+            a = as_int(a)
+            if a is None or a not in table:
                 ws = None
                 break
             env = dict(env_i)
@@ -753,7 +763,7 @@ def oracle_full_case(case, res):
             out.append(('logit-exception', lg['sample_exc']))
         return out
     for n, (sid, lp) in enumerate(zip(res['sample_ids'], res['log_proba'])):
-        if sorted(int(x) for x in sid if x is not None) != ids:
+        if sorted(as_int(x) for x in sid if as_int(x) is not None) != ids or len(sid) != len(ids):
             out.append(('not-a-permutation', {'individual': n, 'sampled': sid}))
         if any(v is None or isinstance(v, str) or abs(v) > TOL_CORR for v in lp):
             out.append(('nonzero-correction', {'individual': n, 'log_proba': lp}))
@@ -781,12 +791,12 @@ def stream_full(ctx):
                     'or a combined variable or a nest structure; distinct by full case')
     rng = ctx.sub_rng('full')
     cases = load_corpus('full')
-    for i in range(ctx.n(24, 300)):
+    for i in range(ctx.n(20, 160)):
         c = gen_case(rng, 'full', {'mode': 'full', 'mev': (i % 3 != 0)})
         cases.append(add_full_model(rng, c))
-    for i in range(ctx.n(6, 80)):
+    for i in range(ctx.n(6, 50)):
         cases.append(gen_mevdup_case(rng))
-    for i in range(ctx.n(8, 100)):
+    for i in range(ctx.n(8, 60)):
         # strata NOT fully sampled: the engine value of get_logit vs the closed form of the corrected logit
         # (a concrete witness when the correction enters the utilities wrongly -- invisible at k = n)
         c = gen_case(rng, 'full', {'mode': 'random', 'mev': False})
@@ -886,7 +896,7 @@ def stream_validate(ctx):
                     'with an empty segment, without / with an empty full set; sizes in {1, n, n-1, 0, n+1, -1, random}; tables with a '
                     'missing id; non-trivial = every generated case; distinct by case')
     rng = ctx.sub_rng('validate')
-    cases = load_corpus('validate') + [gen_validate_case(rng) for _ in range(ctx.n(300, 6000))]
+    cases = load_corpus('validate') + [gen_validate_case(rng) for _ in range(ctx.n(300, 4000))]
     res = run_impl(ctx, cases, nshards=8)
     items = []
     for c, r in zip(cases, res):
@@ -937,7 +947,7 @@ def stream_segsize(ctx):
                                'non-trivial = s >= 0 and m >= 1; distinct by (s, m)')
     rng = ctx.sub_rng('segsize')
     pairs = [(s, m) for s in range(0, 13) for m in range(0, 7)] + [(-1, 3), (5, -1), (0, 1)]
-    pairs += [(rng.randint(-3, 400), rng.randint(-2, 40)) for _ in range(ctx.n(200, 3000))]
+    pairs += [(rng.randint(-3, 400), rng.randint(-2, 40)) for _ in range(ctx.n(200, 2000))]
     cases = [{'kind': 'segsize', 's': s, 'm': m} for s, m in pairs]
     res = run_impl(ctx, cases, nshards=4)
     items = []
@@ -1002,8 +1012,14 @@ def replay(ctx, path):
     if not isinstance(case, dict) or 'kind' not in case:
         print('replay: this file names an obligation/stream; re-run ./check C19')
         return 2
-    r = run_impl(ctx, [case], nshards=1)[0]
     kind = case['kind']
+    if kind == 'full' and 'full_cv_keys' not in case:
+        complete_full_model(case)
+    try:
+        r = run_impl(ctx, [case], nshards=1)[0]
+    finally:
+        import shutil
+        shutil.rmtree(ctx.scratch, ignore_errors=True)
     if kind == 'sample':
         bad = oracle_sample_case(case, r)
     elif kind == 'full':
